@@ -160,6 +160,52 @@ theorem calibrate_alias_mutates :
   have := congrFun hEq Attr.mu_j
   simp [Heap.calibrateTrace, Heap.evalAt, assign, cons, Cons.ok, initialisation, Heap.write, Dict.set] at this
 
+/-! ### the objective must be the repricing function -/
+
+/-- **calibrate_reprices_target**: if the configuration used inside the objective is the user's (default) pricer
+    configuration and the target configuration is the requested one, then — under the root finder's contract — the rebuilt
+    parameters reprice the REQUESTED Black–Scholes target under the USER's pricer within the tolerance -/
+theorem calibrate_reprices_target (irr : Irr) (rf : RootFinder) (tol : Rat) (hc : rf.Contract tol) (f : Fam)
+    (priceWith : PriceCfg → Dict → Rat) (bsPrice : TargetCfg → Rat) (cfgObj cfgUser : PriceCfg) (tgt req : TargetCfg)
+    (d : Dict) (a : Attr) (lo hi x : Rat) (hcfg : cfgObj = cfgUser) (htgt : tgt = req)
+    (h : calibrateCfg irr rf f priceWith bsPrice cfgObj tgt d a lo hi = some x) :
+    lo ≤ x ∧ x ≤ hi ∧ ∃ d2, rebuild irr f d a x = some d2 ∧ rabs (priceWith cfgUser d2 - bsPrice req) ≤ tol := by
+  subst hcfg; subst htgt
+  obtain ⟨h1, h2, _, d2, h4, h5, _⟩ := calibrate_contract irr rf tol hc f (priceWith cfgObj) d a lo hi (bsPrice tgt) x h
+  exact ⟨h1, h2, d2, h4, h5⟩
+
+/-- a root finder that only looks at the left end of the interval (satisfies the contract with tolerance 0) -/
+def leftEndFinder : RootFinder :=
+  ⟨fun g lo hi => if lo ≤ hi then (match g lo with | some y => if rabs y ≤ 0 then some lo else none | none => none) else none⟩
+
+theorem leftEndFinder_contract : leftEndFinder.Contract 0 := by
+  intro g lo hi x h
+  simp only [leftEndFinder] at h
+  split at h
+  · rename_i hle
+    split at h
+    · rename_i y hy
+      split at h
+      · rename_i hy0
+        injection h with h; subst h
+        exact ⟨Rat.le_refl, hle, y, hy, hy0⟩
+      · cases h
+    · cases h
+  · cases h
+
+/-- negation witness (seeded change C20-c): when the objective prices with another configuration than the user's (here
+    2000 instead of 10000 COS terms, and a price that depends on the number of terms) a contract-abiding root finder returns
+    a value that does NOT reprice under the user's pricer — the hypothesis `cfgObj = cfgUser` cannot be dropped -/
+theorem calibrate_cfg_mismatch_witness :
+    ∃ (priceWith : PriceCfg → Dict → Rat) (cfgObj cfgUser : PriceCfg) (d : Dict),
+      cfgObj ≠ cfgUser ∧
+      calibrateCfg ⟨id, fun _ _ => 0, id⟩ leftEndFinder .merton priceWith (fun _ => 2000) cfgObj ⟨1, 0, 0, 1, 1, 1⟩ d .mu_j 0 1
+        = some 0 ∧
+      ∀ d2, (0 : Rat) < rabs (priceWith cfgUser d2 - 2000) := by
+  refine ⟨fun c _ => c.cosTerms, ⟨2000, 10, 1, 0, 0, 1, 1, 1⟩, ⟨10000, 10, 1, 0, 0, 1, 1, 1⟩, Dict.empty, by decide, ?_, ?_⟩
+  · decide +kernel
+  · intro _; show (0 : Rat) < rabs ((10000 : Rat) - 2000); decide +kernel
+
 /-! ### the default table: soundness of the decidable test used by ProofsGen/C20Table -/
 
 theorem containsInterval_sound (c : Cons) (lo hi : Rat) (h : c.containsInterval lo hi = true) :
